@@ -259,6 +259,8 @@ def run(chk):
     pyrules.check_conn_cache(chk, 'R20.7')
     # R20.8 a second rebuild after an edit of the definition re-derives what the first one derived (no compute-once guard on a kernel input)
     pyrules.check_geometry_closure(chk, 'R20.8')
+    # R20.9 no compute-once guard on derived state anywhere in the package (confirmed default-filling instances tabled)
+    pyrules.check_no_compute_once(chk, 'R20.9')
     chk.explanation = ('derive-before-read typestate over the CFG of every public evaluation method (with kernel attribute reads), '
                        'effect analysis on caller-supplied arrays, in-place scalings, prange write-disjointness')
 
